@@ -23,7 +23,7 @@ def corpus_lines(pid):
     return out
 
 
-def run_lines(lines, tag):
+def run_lines(lines, tag, with_model=True):
     """returns (impl_obs_lines, model_obs_lines, judge_output)"""
     cf = os.path.join(common.BUILD, "cases-%s.txt" % tag)
     io_ = os.path.join(common.BUILD, "impl-%s.obs" % tag)
@@ -36,9 +36,12 @@ def run_lines(lines, tag):
         raise HangFound(hung.split(" ", 1)[0], lines)
     if rc != 0:
         raise Broken("gvrun script failed (rc=%d)" % rc, out[-2000:])
-    rc, out = common.sh("timeout 1800 %s script %s > %s" % (common.GVMODEL, cf, mo))
-    if rc != 0:
-        raise Broken("gvmodel script failed (rc=%d)" % rc, out[-2000:])
+    if with_model:
+        rc, out = common.sh("timeout 1800 %s script %s > %s" % (common.GVMODEL, cf, mo))
+        if rc != 0:
+            raise Broken("gvmodel script failed (rc=%d)" % rc, out[-2000:])
+    else:
+        open(mo, "w").write("")
     rc, jout = common.sh("timeout 1800 %s judge %s %s" % (common.GVMODEL, cf, io_))
     if rc != 0:
         raise Broken("gvmodel judge failed (rc=%d)" % rc, jout[-2000:])
